@@ -2,6 +2,8 @@
 // views of the module-private building blocks (X4 = 64 bytes, X8 = 128 bytes, in register order) and
 // uninterpreted-function stubs that must name X4/X8.  No change of behaviour.
 use super::*;
+use block_buffer::generic_array::typenum::{U128, U64};
+use block_buffer::generic_array::GenericArray;
 use core::mem::transmute;
 
 pub fn mul2_real(x: [u8; 16]) -> [u8; 16] { unsafe { transmute(mul2(transmute(x))) } }
@@ -53,3 +55,23 @@ pub unsafe fn submix_uf(a: X8) -> X8 {
     UF_N = k + 1;
     transmute(o)
 }
+
+// ---- dispatch: the public entry points of this module (run-time selected function pointers) with the
+//      *_impl bodies replaced by recorders, to check that every selectable wrapper forwards to the
+//      matching implementation with unchanged arguments
+pub static mut D_WHICH: u8 = 0; // 1 tf512, 2 of512, 3 init512, 4 tf1024, 5 of1024, 6 init1024
+pub static mut D_CALLS: u32 = 0;
+pub static mut D_PTR_OK: bool = false;
+pub static mut D_EXPECT_PTR: usize = 0;
+pub unsafe fn tf512_impl_rec(cv: &mut X4, data: *const u8) { D_WHICH = 1; D_CALLS += 1; D_PTR_OK = data as usize == D_EXPECT_PTR; let o = fresh(); UF_IN[0] = [0; 128]; let c: [u8; 64] = transmute(*cv); let mut i = 0; while i < 64 { UF_IN[0][i] = c[i]; i += 1; } UF_OUT[0] = o; let mut n = [0u8; 64]; let mut i = 0; while i < 64 { n[i] = o[i]; i += 1; } *cv = transmute(n); }
+pub unsafe fn of512_impl_rec(cv: &mut X4) { D_WHICH = 2; D_CALLS += 1; let o = fresh(); let c: [u8; 64] = transmute(*cv); let mut i = 0; while i < 64 { UF_IN[0][i] = c[i]; i += 1; } UF_OUT[0] = o; let mut n = [0u8; 64]; let mut i = 0; while i < 64 { n[i] = o[i]; i += 1; } *cv = transmute(n); }
+pub unsafe fn init512_impl_rec(cv: X4) -> X4 { D_WHICH = 3; D_CALLS += 1; let o = fresh(); let c: [u8; 64] = transmute(cv); let mut i = 0; while i < 64 { UF_IN[0][i] = c[i]; i += 1; } UF_OUT[0] = o; let mut n = [0u8; 64]; let mut i = 0; while i < 64 { n[i] = o[i]; i += 1; } transmute(n) }
+pub unsafe fn tf1024_impl_rec(cv: &mut X8, data: *const u8) { D_WHICH = 4; D_CALLS += 1; D_PTR_OK = data as usize == D_EXPECT_PTR; let o = fresh(); UF_IN[0] = transmute(*cv); UF_OUT[0] = o; *cv = transmute(o); }
+pub unsafe fn of1024_impl_rec(cv: &mut X8) { D_WHICH = 5; D_CALLS += 1; let o = fresh(); UF_IN[0] = transmute(*cv); UF_OUT[0] = o; *cv = transmute(o); }
+pub unsafe fn init1024_impl_rec(cv: X8) -> X8 { D_WHICH = 6; D_CALLS += 1; let o = fresh(); UF_IN[0] = transmute(cv); UF_OUT[0] = o; transmute(o) }
+pub fn dispatch_tf512(cv: [u8; 64], data: &GenericArray<u8, U64>) -> [u8; 64] { unsafe { D_EXPECT_PTR = data.as_ptr() as usize; let mut c: X4 = transmute(cv); super::tf512(&mut c, data); transmute(c) } }
+pub fn dispatch_of512(cv: [u8; 64]) -> [u8; 64] { unsafe { let mut c: X4 = transmute(cv); super::of512(&mut c); transmute(c) } }
+pub fn dispatch_init512(cv: [u8; 64]) -> [u8; 64] { unsafe { transmute(super::init512(transmute::<[u8; 64], X4>(cv))) } }
+pub fn dispatch_tf1024(cv: [u8; 128], data: &GenericArray<u8, U128>) -> [u8; 128] { unsafe { D_EXPECT_PTR = data.as_ptr() as usize; let mut c: X8 = transmute(cv); super::tf1024(&mut c, data); transmute(c) } }
+pub fn dispatch_of1024(cv: [u8; 128]) -> [u8; 128] { unsafe { let mut c: X8 = transmute(cv); super::of1024(&mut c); transmute(c) } }
+pub fn dispatch_init1024(cv: [u8; 128]) -> [u8; 128] { unsafe { transmute(super::init1024(transmute::<[u8; 128], X8>(cv))) } }
